@@ -134,7 +134,7 @@ def run(tier):
     progs = [p for p in en.curated() if en.st.serializable(p.root)]
     progs += [p for p in en.curated(manual=True) if en.st.serializable(p.root)]
     progs += en.curated(names=["mixed14", "headless", "ortho89"], cxx="clang++", std="c++14", san=True, asserts=True)
-    args = ["--tier", tier, "--dev", "0", "--batch", "1", "--deadline", str(1500 if thorough else 150)]
+    args = ["--tier", tier, "--dev", "0", "--batch", "1", "--deadline", str(en.TD if thorough else 150)]
     if thorough:
         # program families: all ordered trees with <= 4 states and the spine family (kind chains of depth 3 / 4)
         fam = [p for p in en.systematic(4) + en.spines() if en.st.serializable(p.root)]
@@ -142,7 +142,7 @@ def run(tier):
             p.args = ["--dev", "0", "--batch", "1", "--deadline", "90"]
         progs += fam
         chk.coverage["program_families"] = {"programs": len(fam), "rule": "all ordered trees with <= 4 states (every region kind headed; composite/resumable/orthogonal also headless) + spine family (kind chains of depth 3 in two orientations, depth 4 over C/O/R); serializable ones"}
-    res = en.run_all(chk, "C08", progs, args, timeout=(2400 if thorough else 400))
+    res = en.run_all(chk, "C08", progs, args, timeout=(en.TD + 900 if thorough else 400))
     en.aggregate(chk, res, "C08")
     tot, per = run_big(chk, tier)
     chk.coverage["big_machines"] = per
